@@ -206,7 +206,8 @@ def _notes_param(key, value):
 def canonical(sf):
     """The simfile a reload is expected to give: SSC charts with their note data moved last."""
     if sf["type"] == "sm":
-        return sf
+        # a reloaded SM chart always has its six fields in the documented key order
+        return {"type": "sm", "items": list(sf["items"]), "charts": [{"fields": list(c["fields"]), "extra": c["extra"]} for c in sf["charts"]]}
     charts = []
     for c in sf["charts"]:
         nk = ssc_notes_key(c["items"])
